@@ -18,7 +18,7 @@ sys.path.insert(0, os.path.join(HERE, "..", "bytesym"))
 import vcommon as V
 from vcommon import log
 import z3
-import core, ref, driver as D, gen01, gen15
+import core, ref, driver as D, gen01, gen15, gen07
 
 LIMITS = {"timeout_ms": 4000, "max_steps": 6000, "max_paths": 600, "max_depth": 10, "budget_s": 90}
 G = {}
@@ -35,7 +35,7 @@ def build_cli(scratch):
 
 
 def family(prop):
-    return gen01 if prop == "C01" else gen15
+    return {"C01": gen01, "C15": gen15, "C07": gen07}[prop]
 
 
 def path_models(paths, nin, limit):
@@ -115,7 +115,7 @@ def work(job):
 def classify(prop, item, why):
     """finding key: which construct, not which witness"""
     if prop == "C01":
-        spine, leaf, v = item
+        spine, leaf = item[0], item[1]
         forms = sorted(set(spine))
         return ("C01", "program", "+".join(forms), re.sub(r"[0-9]+", "N", why.split(":")[0])[:60], "any")
     s, kind, ctx = item
@@ -138,6 +138,7 @@ def main():
     ap.add_argument("prop")
     ap.add_argument("--tier", default=os.environ.get("VERIF_TIER", "quick"))
     ap.add_argument("--replay")
+    ap.add_argument("--merge", action="store_true", help="add this run's coverage to the evidence file another engine wrote for the same property")
     a = ap.parse_args()
     t0 = time.time()
     prop = a.prop
@@ -157,10 +158,12 @@ def main():
 
 
 def select(prop, tier):
+    if prop == "C07":
+        return gen07.select(tier, V.seed())
     if prop == "C01":
         if tier == "quick":
-            return gen01.select([(1, None), (2, 1000), (3, 150)], V.seed())
-        return gen01.select([(1, None), (2, None), (3, 6000)], V.seed())
+            return gen01.select([(1, None), (2, 1100), (3, 200)], V.seed())
+        return gen01.select([(1, None), (2, None), (3, 7000)], V.seed())
     if tier == "quick":
         items, space = gen15.select(1, 3, 2400, V.seed())
         return items, space, 1
@@ -266,11 +269,27 @@ def report(a, prop, results, space, full_depth, t0):
         "bounds": "inputs: three i32, all values; <= %d executed steps and call depth <= %d per path, <= %d paths per program" % (LIMITS["max_steps"], LIMITS["max_depth"], LIMITS["max_paths"]),
         "functions_encoded": "compiler output of the real `mscript compile` for each program (all of compiler/src/ast/*::compile that the family reaches); interpreter side = instruction summary bytesym/vm.py",
     }
-    V.write_evidence(prop, a.tier, "translation_validation", coverage,
-                     ["what is validated is the compiler's OUTPUT on this run, per program, for all input values; the interpreter side is the instruction summary in bytesym/vm.py, validated on this run against %d real executions (one per sampled path, inputs from a model of the path condition)" % nval,
-                      "the language semantics is the reference interpreter bytesym/ref.py (stated at its top)",
-                      "integer arithmetic is i32 with failure on overflow / zero divisor on both sides (what arithmetic yields is C05's claim)"],
-                     time.time() - t0, len(seen))
+    assumptions = ["what is validated is the compiler's OUTPUT on this run, per program, for all input values; the interpreter side is the instruction summary in bytesym/vm.py, validated on this run against %d real executions (one per sampled path, inputs from a model of the path condition)" % nval,
+                   "the language semantics is the reference interpreter bytesym/ref.py (stated at its top)",
+                   "integer arithmetic is i32 with failure on overflow / zero divisor on both sides (what arithmetic yields is C05's claim)"]
+    if a.merge:
+        evdir = os.environ.get("VERIF_EVIDENCE_DIR") or os.path.join(V.VERIF, "evidence")
+        p = os.path.join(evdir, "%s.json" % prop)
+        try:
+            ev = json.load(open(p))
+        except (OSError, ValueError):
+            ev = None
+        if ev is None or ev.get("tier") != a.tier:
+            raise V.Inconclusive("--merge: no evidence of the first engine to add to")
+        ev["coverage"]["engine_D_closure_families"] = coverage
+        ev["assumptions"] = ev.get("assumptions", []) + ["engine D part: " + x for x in assumptions]
+        ev["wall_s"] = round(ev.get("wall_s", 0) + time.time() - t0, 2)
+        ev["violations"] = ev.get("violations", 0) + len(seen)
+        with open(p + ".tmp", "w") as f:
+            json.dump(ev, f, indent=1, default=str)
+        os.replace(p + ".tmp", p)
+    else:
+        V.write_evidence(prop, a.tier, "translation_validation", coverage, assumptions, time.time() - t0, len(seen))
     log("%s: %d programs (%d ok, %d violating, %d undecided, %d unsupported), %d path pairs, %d solver queries, %d real runs validated, %d new violations, %.1fs"
         % (prop, len(results), len(ok), len(viol), len(unk), len(unsup), npairs, nq, nval, len(seen), time.time() - t0))
     return code
